@@ -40,6 +40,7 @@ TR_LEVELS = {"mem": ["client", "server"], "httpc": ["httpc"], "https": ["https"]
 HARNESS_FILES = ["mcp/c13_keepalive_test.go", "mcp/c13_transport_test.go"]
 TLC_WORKERS = 4
 TR_QUICK_SAMPLE = 300
+TR_THOROUGH_RESAMPLE = 4000
 
 
 def consumed(c):
@@ -173,7 +174,7 @@ def run(tier, seed, replay):
         "a ping counts as answered when the reply arrives within interval/2 (the anchored ping timeout)",
         "connection error = one message rejected by the transport (jsonrpc2.ErrRejected, as the streamable transports "
         "report a failed delivery) or an error reply other than method-not-found; a fatal write error ends the "
-        "connection on its own and is outside this property",
+        "connection on its own: no miss of the peer's but the end of the session (class 'broken' of the transport dimension)",
         "client-side keep-alive exists only on legacy-protocol sessions: client scenarios pin 2024-11-05 .. 2025-11-25",
         "a goroutine count that differs from the expected one is never taken for a leftover: the goroutine dump of the bubble decides "
         "(the count is the process's and moves with goroutines outside the bubble); the dumps of one test process are limited to 1 GiB in "
@@ -319,6 +320,7 @@ def run(tier, seed, replay):
             seeds = [seed, seed + 1000, seed + 2000]
     lap("case_export")
     # 3b. transport dimension: the cases of KeepAliveTr (same loop, scripts of classes per transport)
+    skip_later = set()
     tcfg = "KeepAliveTr_gen.cfg" if tier == "quick" else "KeepAliveTr_thorough.cfg"
     tres = vlib.run_tlc("KeepAliveTr", tcfg, workers=TLC_WORKERS, timeout=900, heap_gb=4)
     vlib.tlc_must_pass(tres, tcfg)
@@ -363,12 +365,23 @@ def run(tier, seed, replay):
             trun = short + rng.sample(longer, min(TR_QUICK_SAMPLE, len(longer)))
         else:
             trun = tcases
+            # the further concretisation seeds (interval, bodies of the statuses, protocol version) run every script of at most
+            # two classes and a seeded sample of the longer ones
+            longer = [c for c in tcases if len(c["cls"]) > 2]
+            keep = {c["id"] for c in rng.sample(longer, min(TR_THOROUGH_RESAMPLE, len(longer)))}
+            skip_later = {c["id"] for c in longer} - keep
         run_cases = run_cases + trun
         v.cov["transport_cases_run"] = len(trun)
     lap("transport_case_export")
     cases_path = os.path.join(out, "cases.ndjson")
     vlib.write_ndjson(cases_path, run_cases)
     expected = sum(len(c["levels"]) for c in run_cases)
+    later_cases, later_path = run_cases, cases_path
+    if skip_later:
+        later_cases = [c for c in run_cases if c["id"] not in skip_later]
+        later_path = os.path.join(out, "cases-later-seeds.ndjson")
+        vlib.write_ndjson(later_path, later_cases)
+    expected_later = sum(len(c["levels"]) for c in later_cases)
 
     # 4. real code
     obs_path = os.path.join(out, "obs.ndjson")
@@ -376,7 +389,8 @@ def run(tier, seed, replay):
     with open(obs_path, "w") as allobs:
         for sd in seeds:
             part = os.path.join(out, "obs-%d-%d.ndjson" % (sd, os.getpid()))
-            rc, gout, stuck = run_harness(out, cases_path, part, sd, tier)
+            first_seed = sd == seeds[0]
+            rc, gout, stuck = run_harness(out, cases_path if first_seed else later_path, part, sd, tier)
             if stuck:
                 v.cov.setdefault("harness_restarts", []).extend(stuck)
             vlib.go_must_build(rc, gout, PID)
@@ -387,8 +401,8 @@ def run(tier, seed, replay):
                     return v.finish()
                 raise vlib.MachineryError("C13 harness failed:\n" + gout[-3000:])
             part_rows = vlib.read_ndjson(part)
-            if len(part_rows) != expected:
-                raise vlib.MachineryError("harness ran %d of %d scenarios" % (len(part_rows), expected))
+            if len(part_rows) != (expected if first_seed else expected_later):
+                raise vlib.MachineryError("harness ran %d of %d scenarios" % (len(part_rows), expected if first_seed else expected_later))
             bad = [r for r in part_rows if r["exit"].startswith("harness:") or r["exit"].startswith("connect:")]
             if bad:
                 raise vlib.MachineryError("scenario could not be set up (%d): %s %s" % (len(bad), bad[0]["exit"], json.dumps(bad[0])[:400]))
@@ -466,7 +480,8 @@ def run(tier, seed, replay):
                      "distinct run (consumed script prefix, threshold, closing mode) plus a seeded sample (quick) or every case (thorough, "
                      "3 concretisation seeds); transport dimension: every script of at most threshold + 1 classes of the transport's table that can be "
                      "consumed to its end (scripts longer than 2: at most 2 distinct classes in the quick tier), thresholds 1..3 (thorough 0..3), owner closes "
-                     "between two pings; quick runs every script of <= 2 classes and a seeded sample of %d longer ones, thorough all; distinct = (level," % TR_QUICK_SAMPLE + " outcomes actually consumed, threshold, closing mode, handshake slot, context slot, way of establishing); non-trivial = at least one ping")
+                     "between two pings; quick runs every script of <= 2 classes and a seeded sample of %d longer ones, thorough all (its 2nd and 3rd concretisation "
+                     "seed: every script of <= 2 classes and a seeded sample of %d longer ones); distinct = (level," % (TR_QUICK_SAMPLE, TR_THOROUGH_RESAMPLE) + " outcomes actually consumed, threshold, closing mode, handshake slot, context slot, way of establishing); non-trivial = at least one ping")
     v.cov["exhaustive"] = not replay
     for r in rows[:: max(1, len(rows) // 5)][:5]:
         v.sample({k: r[k] for k in ("level", "pattern", "T", "end", "drain", "hs", "cc", "est", "disc", "neg", "pingable", "hsAt", "ccAt", "I", "pings", "attempts", "closed", "userClose", "kaEarly", "kaAlive", "left", "exit")})
